@@ -13,7 +13,7 @@ RULE = ("NetSpecs drawn by Hypothesis from the full feature lattice (all node ki
         "interruption, renege, batch arrival event} occurred; distinct = distinct SHA-1 of the canonical spec JSON.")
 ASSUMPTIONS = ["ground truth = membership of customer objects in Node.individuals lists and ExitNode.all_individuals",
                "sizes bounded: <=4 nodes, <=3 classes, <=3 servers, event budget per case"]
-WALL = {"quick": 50, "thorough": 540}
+WALL = {"quick": 150, "thorough": 540}
 
 
 def nontrivial(a, spec, res):
@@ -35,5 +35,5 @@ def classes(a, spec, res):
 def subchecks(tier):
     prof = common.full_profile(max_nodes=4)
     return [system_subcheck("lattice", prof, lambda spec: [Conservation()], nontrivial, classes=classes,
-                            n={"quick": 2400, "thorough": 40000},
+                            n={"quick": 7200, "thorough": 40000},
                             rule="full lattice, conservation monitor after every event")]
